@@ -5,7 +5,7 @@ import json, sys
 CHECKS = {
  # id: (technique, level text, level_note, design_ref)
  "C01": ("bounded-exhaustive enumeration of resize geometries x filters x algorithms x 13 pixel types x back-ends on the real code, judged against an independent f64 interval model of the documented ideal resampler",
-         "Every 1-D geometry (n_in,n_out up to N, 13-member crop alphabet incl. sub-pixel and edge-flush boxes) x 7 filters x {Convolution,Interpolation} is executed for all pixel types, back-ends and both pass orientations on impulse / constant / sign-adversarial / extreme / LCG contents; every 2-D geometry up to M^4 x 35 algorithms incl. SuperSampling; each destination sample must lie in the ideal interval (1/2 + coefficient quantisation per pass, a few f32 ulps for floats), undefined weights at kernel discontinuities only widen the interval.",
+         "Every 1-D geometry (n_in,n_out up to N, 13-member crop alphabet incl. sub-pixel and edge-flush boxes) x 7 filters x {Convolution,Interpolation} is executed for all pixel types, back-ends and both pass orientations on impulse / constant / sign-adversarial / extreme / LCG contents; every 2-D geometry up to M^4 x 35 algorithms incl. SuperSampling; each destination sample must lie in the ideal interval (1/2 + coefficient quantisation per pass, a few f32 ulps for floats), undefined weights at kernel discontinuities only widen the interval. A model space judges the precision itself: for every geometry of the model family every i16/i32 coefficient must be the f64 weight rounded to nearest at scale 2^p and p must be maximal for the coefficient word (caps 21/45).",
          "Sizes bounded (N=12/32, M=4/7, long kernels up to 4097 taps in one dimension); contents are the stated finite generator list; the quantisation term uses the precision the implementation reports.",
          "DESIGN.md §4 C01"),
  "C02": ("bounded-exhaustive differential enumeration: every SIMD back-end vs the portable one on the same case, plus conformance of the portable integer kernels with the fixed-point coefficient model (tables read through the hook)",
@@ -13,7 +13,7 @@ CHECKS = {
          "Custom-kernel geometries whose normalised window has Σ|w| >= 4 are outside the documented head-room and skipped; float alpha-aware cases use alpha in [0.5,1] (the division is ill-conditioned otherwise).",
          "DESIGN.md §4 C02"),
  "C03": ("three cooperating bounded-exhaustive explorations on both build profiles: invariants on the implementation's coefficient tables for every geometry and kernel (incl. replays that bind the static-table read to the code), an API sweep in isolated child processes with guard pages behind every image buffer and heap block, and every Resizer history up to a depth with fenced misaligned scratch buffers",
-         "Model: every geometry of the model space x 7 built-in + 14 custom kernels: window bounds (all unchecked reads stay in the row), clip-table index range for ALL contents (replayed on the real kernels when the unclamped index would leave the table), accumulator ranges, SIMD precision dispatch under the head-room premise. Sweep: sizes (0..S)^4 x 30 algorithms (wild kernels, SuperSampling multiplicity 0..255) x valid+invalid crop alphabets x rotating pixel types/back-ends/containers, alpha/mapper/conversion operations, and the public view methods with arbitrary arguments (negative, NaN, inf, near u32::MAX); each case in a child process whose death by signal is attributed to the case. Histories: every call sequence of the C09 alphabet to depth 2/3. Verdict: Ok or documented Err; no signal, abort or panic (panics allowed only outside the head-room).",
+         "Model: every geometry of the model space x 7 built-in + 14 custom kernels: window bounds (all unchecked reads stay in the row), clip-table index range for ALL contents (replayed on the real kernels when the unclamped index would leave the table), accumulator ranges, SIMD precision dispatch under the head-room premise. Sweep: sizes (0..S)^4 x 30 algorithms (wild kernels, SuperSampling multiplicity 0..255) x valid+invalid crop alphabets x rotating pixel types/back-ends/containers, alpha/mapper/conversion operations, and the public view methods with arbitrary arguments (negative, NaN, inf, near u32::MAX); each case in a child process whose death by signal is attributed to the case. Histories: every call sequence of the C09 alphabet to depth 2/3. Verdict: Ok or documented Err; no signal, abort or panic (panics allowed only outside the head-room). A further space constructs custom filters with 18 support values (NaN, ±inf, negative, ±0, denormal .. 64) and uses the accepted ones.",
          "S = 3 / 6; pixel types, back-ends and containers rotate over the cases rather than forming a full product; heap fencing covers blocks with alignment <= 8; a NaN-valued kernel is outside the statement.",
          "DESIGN.md §4 C03"),
  "C04": ("bounded-exhaustive enumeration of u32 rectangles / f64 crop boxes / buffer lengths and alignments over every constructor, on both build profiles, exact-arithmetic oracle",
@@ -45,7 +45,7 @@ CHECKS = {
          "rayon itself is trusted (each for_each item runs exactly once); loom sees the model's atomics and the per-row cells, not plain accesses to other memory; loom's limit of 5 threads per execution bounds workers x regions.",
          "DESIGN.md §4 C08, §2.4"),
  "C09": ("explicit-state search (stateright BFS) over Resizer histories whose states hold the real Resizer; every transition runs the real operation on the reused and on a fresh Resizer",
-         "State = real Resizer (deduplicated on its Debug rendering: back-end + full contents of the three scratch buffers, plus depth); 176 actions (8 pixel types of pixel size 1..16 and alignment 1/2/4, 4 geometries, 4 algorithms, alpha, fractional crops, erroring calls, reset_internal_buffers, clone, back-end switches) explored exhaustively to depth 2/3 and a 39-action sub-alphabet to depth 3/4; each transition compares result value and destination bytes with Resizer::new(); the search is run twice and the state/transition counts must agree.",
+         "State = real Resizer (deduplicated on its Debug rendering: back-end + full contents of the three scratch buffers, plus depth); 176 actions (8 pixel types of pixel size 1..16 and alignment 1/2/4, 4 geometries, 4 algorithms, alpha, fractional crops, erroring calls, reset_internal_buffers, clone, back-end switches) explored exhaustively to depth 2/3 and a 39-action sub-alphabet to depth 3/4; each transition compares result value and destination bytes with Resizer::new(); the search is run twice and the state/transition counts must agree. Later additions: 240 actions incl. sprites with long zero runs, alpha-aware up-scales of interior crop boxes, size ladders of the three scratch buffers (deeper ladder search); states are rebuilt by replaying the action path on one live Resizer; each search runs in a child process so that a memory-corrupting change ends in a crash verdict.",
          "Depth-bounded; the alphabet of geometries and contents is finite and fixed; allocator behaviour (alignment of the scratch Vec) is the system allocator's here and adversarial in C03.",
          "DESIGN.md §4 C09, §2.3"),
  "C10": ("exact invariant check on the implementation's own integer coefficient tables for every geometry (model level, decides all component values), bound to the code by bounded-exhaustive direct resizes of uniform images",
@@ -61,8 +61,8 @@ CHECKS = {
          "W = 6 / 9; floats in the one-dimension family within 2 ulps.",
          "DESIGN.md §4 C12"),
  "C13": ("bounded-exhaustive differential enumeration over the container matrix (11 source kinds x 11 destination kinds, pairwise) x operations x pixel types x back-ends x placements x both entry points in fenced memory, isolated child processes",
-         "14 operations x size pairs x 8 placements x 13 pixel types x back-ends are executed through every source and destination container kind and both entry points with buffers that end at a guard page; the destination rectangle must be byte-identical to the ImageRef -> slice baseline (floats included).",
-         "Container kinds varied pairwise, typed kinds for 6 of 13 pixel types (compile-time bound); sizes from a fixed list.",
+         "14 operations x size pairs x 8 placements x 13 pixel types x back-ends are executed through every source and destination container kind and both entry points with buffers that end at a guard page; the destination rectangle must be byte-identical to the ImageRef -> slice baseline (floats included). Rayon leg: with feature `rayon` and the real rayon, 9 band bodies x 4 types x back-ends x shapes x source kinds {TypedImageRef, owned TypedImage, cropped view of either} x 4 destination kinds x pool sizes must give the bytes of (borrowed source, plain destination, pool of one).",
+         "Container kinds varied pairwise, typed kinds for 6 of 13 pixel types (compile-time bound); sizes from a fixed list. The rayon leg runs under the OS scheduler (schedule independence is C08's loom exploration).",
          "DESIGN.md §4 C13"),
  "C14": ("bounded-exhaustive enumeration of view kinds x view sizes x every (start,size,parts) triple x direction with split-of-split, rectangle-model oracle with tag images and paint-and-inspect for mutable parts",
          "For every view kind (owned, referenced, cropped, nested, mutable, and a harness view using only the trait defaults), every view size up to BxB inside parents with margins, every (start,size,parts) incl. invalid ones and values near u32::MAX, and both directions, the real split functions are called; immutable parts are read back pixel by pixel against tags, mutable parts paint their index and the whole root image is compared with the expected index map, and every part is split again (depth 2). Both build profiles.",
